@@ -4,6 +4,7 @@ import (
 	"encoding/hex"
 	"fmt"
 	"math/rand"
+	"os"
 	"strings"
 	"time"
 
@@ -55,7 +56,7 @@ func c13(c *ctx) {
 		cases = append(cases, cs)
 	}
 	cfgs := []config{{name: "memo", v: vPlain, memo: true}, {name: "nomemo", v: vPlain}, {name: "both", v: vBoth, memo: true}}
-	race := c.env.Tier == "thorough" // generated parsers contain no unsafe code: an out-of-range access is a panic, which the
+	race := c.env.Tier == "thorough" || os.Getenv("VERIF_C13_RACE") != "" // generated parsers contain no unsafe code: an out-of-range access is a panic, which the
 	// monitor catches; the race/checkptr build is therefore only used in the thorough tier
 	f := &family{c: c, tag: "c13", race: race, configs: cfgs, noexec: true, refLimit: 3000000, maxDepth: 200, batch: 72, history: []string{"memo"}}
 	f.judge = func(cs *gcase, e entry, it *ref.Interp, refOK bool, refEnd int, res map[string]*corpus.Res) {
